@@ -624,7 +624,23 @@ def run_instr_case(env, prog, label, rv, acc, mode, m, br, a, aif, res, rpx):
         regs[ix["dfsr"]] = 0xA5A5EAAA
         regs[ix["dfar"]] = 0xDFA0DFA0
     pre = tuple(regs)
-    plan.restore((pre, env.base[1]))
+    if mo[0] == "fault":
+        # history: the processor first retires a post-indexed load (write-back to r9, MPU off); the case's state is then
+        # re-created by assignment, so whatever the emulator keeps about the previous instruction outside the
+        # architectural state (a saved base register, a cached opcode) is stale when the faulting instruction runs
+        prime = list(pre)
+        prime[ix["sctlr"]] &= ~1
+        prime[ix["cpsr"]] = 0x1D3
+        prime[ix["R.R9usr"]] = 0x10100
+        plan.restore((tuple(prime), env.base[1]))
+        machine.put_instr(cpu, CODE, 0xE4993004, False, 32)          # LDR r3,[r9],#4
+        machine.step(cpu)
+        res.transitions += 1
+        plan.restore_regs(pre, scratch=False)
+        for mc, (b_, e_, data) in zip(cpu.mem.memories, env.base[1]):
+            mc.mem.memory_array[:] = data
+    else:
+        plan.restore((pre, env.base[1]))
     machine.put_instr(cpu, CODE, prog.word, prog.thumb, prog.olen)
     pre_mem = plan.mem()
     res.cases += 1
